@@ -180,6 +180,7 @@ def case(spec):
                 total_sectors = len(raw) // 256
                 cut = rng.randint(6, total_sectors - 1)
                 partial = rng.choice([0, 0, 1, 128, 255])
+                partial = [0, 1, 255, 128, partial][idx % 5]
                 tpath = os.path.join(tmp, 't.%s' % dm.ext_for(s0, interleaved=(kind == 'inter')))
                 traw = raw[:cut * 256 + partial]
                 write_file(tpath, traw)
@@ -187,7 +188,12 @@ def case(spec):
                 res.add('truncated_images', 1)
                 for side, (s, drive) in enumerate(zip(surfaces, drives)):
                     simg = s.image()
-                    for (t, x) in sample_addresses(rng, s.tracks, s.spt, 6):
+                    # always the sectors around the cut: the last complete one, the one that straddles the end of
+                    # the file (partly stored: it must not be delivered) and the first one wholly beyond it
+                    edge = [(t, x) for t in range(s.tracks) for x in range(s.spt)
+                            if cut - 1 <= doc_offset(kind, side, s.tracks, s.spt, t, x) <= cut + 1]
+                    res.add('sectors_probed_at_the_cut', len(edge))
+                    for (t, x) in edge + sample_addresses(rng, s.tracks, s.spt, 6):
                         pos = doc_offset(kind, side, s.tracks, s.spt, t, x)
                         lba = t * s.spt + x
                         if pos < cut:
